@@ -44,6 +44,7 @@ type EngScenario struct {
 	ILook    []int      `json:"ilook"`    // per node: the component its Init() looks up by name through the App (0 = none)
 	Procs    []bool     `json:"procs"`    // user post-processors that are components themselves; true = LazyInit
 	Mode     []string   `json:"mode"`     // per node: normal | beforeNil | shortcut (lifecycle imposed by the rig processor)
+	PlainRig bool       `json:"plainRig"` // no processor of the application implements GetEarlyBeanReference
 	Extra    bool       `json:"extra"`    // processors.NewDependencyTypeAwarePostProcessors() registered next to the default collector (no action in the spec)
 	Quiet    bool       `json:"quiet"`    // a user instantiation-aware processor ordered FIRST that answers false to PostProcessAfterInstantiation
 	Runners  []int      `json:"runners"`  // nodes that are application runners (held by the App's runner slice)
@@ -396,18 +397,23 @@ func (p *permSingles) GetSingletonNames() []string {
 }
 
 // ---- wiring + observer + actor processor (one user component)
-type rig struct {
+type rigCore struct {
 	processors.DefaultTagScanDefinitionRegistryPostProcessor
 	processors.DefaultInstantiationAwareComponentPostProcessor
 	e *env
 }
 
-func (r *rig) Naming() string { return "zz-rig" }
+func (r *rigCore) Naming() string { return "zz-rig" }
 
-func (r *rig) PostProcessAfterInstantiation(component any, name string) (bool, error) {
+// rig is the "smart" processor (it is asked for early references); with sc.PlainRig the plain rigCore is registered
+// instead, so that NO processor of the application implements GetEarlyBeanReference (only where no component is
+// substituted at early-reference time)
+type rig struct{ *rigCore }
+
+func (r *rigCore) PostProcessAfterInstantiation(component any, name string) (bool, error) {
 	return true, nil
 }
-func (r *rig) PostProcessProperties(ps []*component_definition.Property, component any, name string) ([]*component_definition.Property, error) {
+func (r *rigCore) PostProcessProperties(ps []*component_definition.Property, component any, name string) ([]*component_definition.Property, error) {
 	if id := r.e.idOf(name); id != 0 {
 		fail := r.e.sc.Fail[id-1] == "resolve"
 		r.e.emit("resolve", id, map[string]any{"ok": !fail})
@@ -417,7 +423,7 @@ func (r *rig) PostProcessProperties(ps []*component_definition.Property, compone
 	}
 	return nil, nil
 }
-func (r *rig) PostProcessBeforeInitialization(c any, name string) (any, error) {
+func (r *rigCore) PostProcessBeforeInitialization(c any, name string) (any, error) {
 	if id := r.e.idOf(name); id != 0 {
 		if err := r.e.cb("before", id); err != nil {
 			return nil, err
@@ -428,14 +434,14 @@ func (r *rig) PostProcessBeforeInitialization(c any, name string) (any, error) {
 	}
 	return c, nil
 }
-func (r *rig) PostProcessBeforeInstantiation(m *component_definition.Meta, name string) (any, error) {
+func (r *rigCore) PostProcessBeforeInstantiation(m *component_definition.Meta, name string) (any, error) {
 	if id := r.e.idOf(name); id != 0 && r.e.sc.Mode[id-1] == "shortcut" {
 		r.e.emit("binst", id, nil)
 		return m.Raw, nil
 	}
 	return nil, nil
 }
-func (r *rig) PostProcessAfterInitialization(c any, name string) (any, error) {
+func (r *rigCore) PostProcessAfterInitialization(c any, name string) (any, error) {
 	id := r.e.idOf(name)
 	if id == 0 {
 		return c, nil
@@ -592,7 +598,7 @@ func runEngScenario(sc *EngScenario) []map[string]any {
 		}
 		tab[nodeName(i)] = fields
 	}
-	r := &rig{e: e}
+	r := &rigCore{e: e}
 	r.NodeType = component_definition.PropertyTypeComponent
 	r.Required = true
 	r.ExtractHandler = func(meta *component_definition.Meta, field *component_definition.Field) (string, string, bool) {
@@ -620,7 +626,11 @@ func runEngScenario(sc *EngScenario) []map[string]any {
 	} else {
 		ordered = append(ordered, comps[1:]...)
 	}
-	ordered = append(ordered, r)
+	if sc.PlainRig {
+		ordered = append(ordered, r)
+	} else {
+		ordered = append(ordered, &rig{r})
+	}
 	if sc.Procs == nil {
 		sc.Procs = []bool{}
 	}
